@@ -122,14 +122,13 @@ class World:
         r = link.reader[side]
         if kind == "eof":
             r.feed_eof()
-        elif kind == "reset":
-            r.set_exception(ConnectionResetError("connection reset by peer"))
-        elif kind == "pipe":
-            r.set_exception(BrokenPipeError("broken pipe"))
-        elif kind == "timeout":
-            r.set_exception(TimeoutError("connection timed out"))
-        elif kind == "oserror":
-            r.set_exception(OSError(113, "No route to host"))
+        elif kind in ("reset", "pipe", "timeout", "oserror"):
+            exc = {"reset": ConnectionResetError("connection reset by peer"), "pipe": BrokenPipeError("broken pipe"),
+                   "timeout": TimeoutError("connection timed out"), "oserror": OSError(113, "No route to host")}[kind]
+            r.set_exception(exc)
+            wr = link.writer.get(side)
+            if wr is not None:
+                wr.close_error = exc        # connection_lost(exc): the writer's wait_closed() raises it too
         else:
             raise AssertionError(kind)
         await settle()
